@@ -13,7 +13,7 @@ Qed.
 Lemma s_read_data n i : s_data (snd (s_read n i)) = s_data i.
 Proof.
   unfold s_read, s_data. destruct (s_sticky i).
-  - destruct (negb (s_good i)); [reflexivity|]. destruct (n <=? 0); [reflexivity|].
+  - destruct (negb (s_good i)); [reflexivity|]. destruct (n <=? 0); [reflexivity|]. destruct (closed_now i); [reflexivity|].
     rewrite zip_take_spec. cbn [snd s_before s_after]. apply data_zip.
   - destruct ((_ <=? 0) || _); [reflexivity|]. rewrite zip_take_spec. cbn [snd s_before s_after]. apply data_zip.
 Qed.
@@ -29,7 +29,7 @@ Qed.
 Lemma s_seek_data off i : s_data (s_seek off i) = s_data i.
 Proof.
   unfold s_seek, s_data. destruct (s_sticky i).
-  - destruct (s_good i); [|reflexivity].
+  - destruct (s_good i); [|reflexivity]. destruct (closed_now i || (s_pos i + off <? 0)); [reflexivity|].
     pose proof (zip_move_data (s_before i) (s_after i) (s_cur i) (s_pos i + off)) as H.
     destruct (zip_move _ _ _ _) as [[b a] c]. exact H.
   - pose proof (zip_move_data (s_before i) (s_after i) (s_cur i) (Z.min (s_pos i + off) (s_size i))) as H.
@@ -40,7 +40,7 @@ Lemma scan_data sp : forall n tmp i r i', scan_loop sp n tmp i = Ok (r, i') -> s
 Proof.
   induction n as [|n IH]; intros tmp i r i' H; [discriminate|]. cbn [scan_loop] in H.
   pose proof (s_read_data 4 i) as D. destruct (s_read 4 i) as [got i1]. cbn [snd] in D.
-  destruct (_ =? sp_sig sp); [inversion H; subst; exact D|]. destruct (s_eof i1); [discriminate|].
+  destruct (_ =? sp_sig sp); [inversion H; subst; exact D|]. destruct (scan_stop sp i1); [discriminate|].
   destruct (scan_rule _ _ =? 0); [rewrite (IH _ _ _ _ H); exact D|rewrite (IH _ _ _ _ H), s_seek_data; exact D].
 Qed.
 
